@@ -1028,6 +1028,7 @@ pub fn gen_conc_mode(id: usize, seed: u64, tier_big: bool, mode: &str) -> ConcCa
         }
         programs.push(p);
     }
+    let mut solo_freeze: Vec<(usize, usize)> = vec![];
     let (programs, cap, prefill, hashes, class) = match mode {
         "iter" => {
             // one case in three: a tree bin (all-equal hashes, 128 bins, 9..12 keys), so that the
@@ -1321,7 +1322,26 @@ pub fn gen_conc_mode(id: usize, seed: u64, tier_big: bool, mode: &str) -> ConcCa
         }
         "solo" => {
             // thread 0 performs one read; the others write into the same bin / resize the table
-            let shape = rng.below(4);
+            let shape = rng.below(5);
+            if shape == 4 {
+                // a tree bin; thread 1 is a second reader that is suspended for good a few steps
+                // into its lookup (often while it holds the bin's read lock); the writers then
+                // park behind it with the WAITER bit set; the read of thread 0 starts only when
+                // nobody else can run and must still finish on its own
+                let hashes = crate::gen::gen_hashes(&mut rng, "zero", 60);
+                let pre = 9 + rng.below(4) as usize;
+                let prefill: Vec<(u32, u64, u32)> = (0..pre).map(|i| ((i + 1) as u32, rng.below(5), fresh())).collect();
+                let rk = 1 + rng.below(pre as u64 + 1) as u32;
+                let read = match rng.below(4) { 0 | 1 => COp::Get(rk), 2 => COp::Has(rk), _ => COp::GetKv(rk) };
+                let k2 = 1 + rng.below(pre as u64) as u32;
+                let mut programs = vec![vec![read], vec![if rng.chance(1, 2) { COp::Get(k2) } else { COp::Has(k2) }]];
+                for _ in 0..(1 + rng.below(2) as usize) {
+                    let k = 1 + rng.below(pre as u64) as u32;
+                    programs.push(vec![match rng.below(4) { 0 | 1 => COp::Rm(k), 2 => COp::Ins(pre as u32 + 1 + rng.below(4) as u32, 1, fresh()), _ => COp::CipRm(k) }]);
+                }
+                let policy = Policy::Solo { reader: 0, start: 0, after: usize::MAX / 2, freeze: vec![(1usize, 5 + rng.below(14) as usize)] };
+                return ConcCase { id, seed, hash_class: "solo", hashes, cap: 64, prefill, programs, policy, pin: rng.chance(1, 3) };
+            }
             let hc = if shape == 0 { "zero" } else { *rng.pick(&["ident", "fewbins", "alternate"]) };
             let hashes = crate::gen::gen_hashes(&mut rng, hc, 60);
             let pre = match shape { 0 => 7 + rng.below(5) as usize, 1 => 1 + rng.below(6) as usize, 3 => 2 + rng.below(8) as usize, _ => 9 + rng.below(6) as usize };
@@ -1330,6 +1350,18 @@ pub fn gen_conc_mode(id: usize, seed: u64, tier_big: bool, mode: &str) -> ConcCa
             let rk = 1 + rng.below(pre as u64 + 2) as u32;
             let read = match rng.below(6) { 0 | 1 => COp::Get(rk), 2 => COp::Has(rk), 3 => COp::GetKv(rk), 4 => COp::Iter, _ => COp::Len };
             let mut programs = vec![vec![read]];
+            if shape == 0 && rng.chance(2, 3) {
+                // a second reader of the tree bin that is suspended for good somewhere inside its
+                // lookup (with luck while it holds the bin's read lock): the writers below then
+                // park behind it with the WAITER bit set, and the read of thread 0 must still
+                // finish on its own
+                let k2 = 1 + rng.below(pre as u64) as u32;
+                programs.push(vec![if rng.chance(1, 2) { COp::Get(k2) } else { COp::Has(k2) }]);
+                solo_freeze.push((1usize, 2 + rng.below(40) as usize));
+            } else if rng.chance(1, 4) {
+                // a writer that is suspended for good in the middle of its operation
+                solo_freeze.push((1usize, 3 + rng.below(80) as usize));
+            }
             if shape == 3 {
                 // a chain of resizes while the reader is suspended in the middle of its operation:
                 // it resumes on a table that has been forwarded more than once
@@ -1371,11 +1403,11 @@ pub fn gen_conc_mode(id: usize, seed: u64, tier_big: bool, mode: &str) -> ConcCa
     };
     let policy = if mode == "frozeniter" {
         // the reader does not run before it runs alone
-        Policy::Solo { reader: 0, start: 0, after: if rng.chance(1, 6) { usize::MAX / 2 } else { rng.below(1500) as usize } }
+        Policy::Solo { reader: 0, start: 0, after: if rng.chance(1, 6) { usize::MAX / 2 } else { rng.below(1500) as usize }, freeze: vec![] }
     } else if mode == "solo" { {
         let start = if rng.chance(1, 2) { 0 } else { 1 + rng.below(40) as usize };
         let after = if rng.chance(1, 3) { usize::MAX / 2 } else { start + rng.below(400) as usize };
-        Policy::Solo { reader: 0, start, after }
+        Policy::Solo { reader: 0, start, after, freeze: solo_freeze.clone() }
     } } else { policy };
     ConcCase { id, seed, hash_class: class, hashes, cap, prefill, programs, policy, pin: rng.chance(1, 3) }
 }
